@@ -404,7 +404,7 @@ def reencodings(spec, seed):
         s['quanti'][f] = [None if v is None else -v for v in s['quanti'][f]]
         out.append(('negate_' + f, s))
         s = copy.deepcopy(spec)
-        a = rng.choice([2.0, 0.5, 4.0])
+        a = rng.choice([2.0, 0.5, 4.0, 1e-9, 1e9, 2.0 ** -30])
         s['quanti'][f] = [None if v is None else v * a for v in s['quanti'][f]]
         out.append((f'scale_{a}_' + f, s))
     if spec['quali']:
@@ -439,7 +439,9 @@ def reencode_case(seed):
     vs = []
     for kind, s in reencodings(spec, seed):
         e = run(s)
-        e.update({'kind': kind, 'clause_kept': 'C15_selection_changed_by_' + kind.split('_')[0], 'clause_part': 'C15_unused'})
+        e.update({'kind': kind, 'clause_kept': 'C15_selection_changed_by_' + kind.split('_')[0], 'clause_part': 'C15_unused',
+                  # a column permutation leaves every computed value bit-identical: no tie tolerance there
+                  'strict': kind == 'column_permutation'})
         vs.append(e)
     tie_m = [scaled(reference_measure(spec, f)) for f in feats]
     tie_g = [1 if f in spec['quanti'] else 2 for f in feats]
